@@ -6,6 +6,7 @@ import (
 	"sort"
 	"strings"
 
+	ethcrypto "github.com/ethereum/go-ethereum/crypto"
 	"github.com/holiman/uint256"
 	rctypes "github.com/rigochain/rigo-go/ctrlers/types"
 	"github.com/rigochain/rigo-go/libs/web3"
@@ -243,4 +244,43 @@ func OK(ev J) bool {
 	r, _ := ev["resp"].(J)
 	ok, _ := r["ok"].(bool)
 	return ok
+}
+
+// ---------------------------------------------------------------- contracts
+
+// CreateAddr is the address of the contract created by account from with its current nonce.
+func (s *Script) CreateAddr(from int) []byte {
+	var a [20]byte
+	copy(a[:], s.R.KR.Addr(from))
+	addr := ethcrypto.CreateAddress(a, s.nonce(from))
+	return addr[:]
+}
+
+// Deploy sends a contract-creation transaction for runtime code; returns the event and the new address.
+func (s *Script) Deploy(from int, runtime []byte, slot0 int64, value string, gas uint64) (J, []byte) {
+	addr := s.CreateAddr(from)
+	tx := web3.NewTrxContract(s.R.KR.Addr(from), types.ZeroAddress(), s.nonce(from), gas, s.price(), Amt(value), Deployer(runtime, slot0))
+	return s.Deliver(tx, from, "contract:deploy"), addr
+}
+
+// CallC sends a contract call.
+func (s *Script) CallC(from int, to []byte, data []byte, value string, gas uint64) J {
+	tx := web3.NewTrxContract(s.R.KR.Addr(from), to, s.nonce(from), gas, s.price(), Amt(value), data)
+	return s.Deliver(tx, from, "contract:call")
+}
+
+// TransferTo is a native transfer to an arbitrary address (routed to the EVM if the receiver is a contract account).
+func (s *Script) TransferTo(from int, to []byte, amt string, gas uint64) J {
+	if gas == 0 {
+		gas = s.gas()
+	}
+	tx := web3.NewTrxTransfer(s.R.KR.Addr(from), to, s.nonce(from), gas, s.price(), Amt(amt))
+	return s.Deliver(tx, from, "transfer:toaddr")
+}
+
+func childAddr(creator []byte, nonce uint64) []byte {
+	var a [20]byte
+	copy(a[:], creator)
+	addr := ethcrypto.CreateAddress(a, nonce)
+	return addr[:]
 }
